@@ -5,12 +5,13 @@ rows=[]
 props={}
 for l in open('/verif/properties.jsonl'):
     p=json.loads(l); props[p['id']]=p['title']
-for sd in sorted(glob.glob('/tmp/wt_*/SEEDED/*/')):
-    m=re.match(r'/tmp/wt_(C\d+)/SEEDED/(\w)/', sd)
+for sd in sorted(glob.glob('/tmp/wt_*/SEEDED/*/') + glob.glob('/tmp/wt2_*/SEEDED/*/'), key=lambda d: (re.search(r'(C\d+)/SEEDED/(\w)', d).groups())):
+    m=re.match(r'/tmp/wt2?_(C\d+)/SEEDED/(\w)/', sd)
     if not m or not os.path.exists(sd+'patch.diff'): continue
     pid, x = m.group(1), m.group(2)
     st={}
-    sp='/tmp/seed_results/%s_%s/status'%(pid,x)
+    resdir='/tmp/seed_results2' if x in ('C','D') else '/tmp/seed_results'
+    sp='%s/%s_%s/status'%(resdir,pid,x)
     if os.path.exists(sp):
         for ln in open(sp):
             if '=' in ln:
@@ -31,7 +32,7 @@ for sd in sorted(glob.glob('/tmp/wt_*/SEEDED/*/')):
     caught = st.get('check')=='1' and int(st.get('violations','0') or 0)>0
     valid = st.get('gotest')=='0' and st.get('demo_patched') not in (None,'0') and st.get('demo_clean')=='0'
     viol=[]
-    cl='/tmp/seed_results/%s_%s/check.log'%(pid,x)
+    cl='%s/%s_%s/check.log'%(resdir,pid,x)
     if os.path.exists(cl):
         viol=[l.strip()[:300] for l in open(cl, errors='replace') if l.startswith('  signature=')][:3]
     meta={"property": pid, "title": props.get(pid), "variant": x,
@@ -41,24 +42,26 @@ for sd in sorted(glob.glob('/tmp/wt_*/SEEDED/*/')):
           "what_i_ran": "scratch worktree of /repo HEAD; git apply patch.diff; cd tooling && go build ./... && go test -vet=off -count=1 ./...; bash demo.sh <worktree>; VERIF_REPO=<worktree> ./check %s --tier quick; git checkout; bash demo.sh <worktree>" % pid,
           "check_result": {"exit": st.get('check'), "violation_lines": st.get('violations'), "first_signatures": viol},
           "caught_by_check": bool(caught), "valid_seed": bool(valid), "raw_status": st}
-    if (pid, x) == ("C14", "B"):
+    if (pid, x) in (("C14", "B"), ("C14", "D")):
         other = {}
-        for c in ("C17", "C07"):
-            lp = '/tmp/seed_results/C14_B/check_%s.log' % c
+        for c in (("C17", "C07") if x == "B" else ("C01", "C03")):
+            lp = '%s/C14_%s/check_%s.log' % (resdir, x, c)
             if os.path.exists(lp):
                 ls = open(lp, errors='replace').read().splitlines()
                 other[c] = {"violation_lines": sum(1 for l in ls if l.startswith("VIOLATION")), "first_signatures": [l.strip()[:300] for l in ls if l.startswith("  signature=")][:2]}
         meta["caught_by_other_checks"] = other
-        meta["note"] = ("C14's check extracts serialization plans from the generated Python and MATLAB code only; this change is in the generated C++ batch writer. "
-                        "It is caught by C17 (empty batches around every batch) and C07 (real binary writer sequences).")
-    if os.path.exists('/tmp/seed_results/%s_%s/demo_note' % (pid, x)):
-        meta["what_i_ran"] += "; " + open('/tmp/seed_results/%s_%s/demo_note' % (pid, x)).read().strip()
+        meta["note"] = ("C14's check extracts serialization plans from the generated Python and MATLAB code only; this change is in the generated C++ code. "
+                        + ("It is caught by C17 (empty batches around every batch), C07 (real binary writer sequences) and, since the second round, C01 (batched writer calls)." if x == "B" else
+                           "It is caught by C01 and C03 (records with interior padding at the 64 KiB boundary sweep)."))
+    if os.path.exists('%s/%s_%s/demo_note' % (resdir, pid, x)):
+        meta["what_i_ran"] += "; " + open('%s/%s_%s/demo_note' % (resdir, pid, x)).read().strip()
+    meta["round"] = 2 if x in ("C", "D") else 1
     json.dump(meta, open(os.path.join(dst,'meta.json'),'w'), indent=1)
     rows.append((pid,x,valid,caught,st,viol))
 with open(os.path.join(out,'RESULTS.md'),'w') as f:
-    f.write("# Seeded changes and which checks catch them\n\nEach change was written by an independent sub-agent that saw only the property text, in its own scratch worktree. "
+    f.write("# Seeded changes and which checks catch them\n\nEach change was written by an independent sub-agent that saw only the property text, in its own scratch worktree. Variants A, B are the first round; C, D a second round (fresh agents, told only the one-line titles of A and B so as to do something else) run after the checks had been strengthened once. "
             "`valid` = applies to the current tree, compiles, pinned Go tests pass, demonstration fails with the change and passes without. `caught` = `./check <id> --tier quick` "
             "(run with VERIF_REPO pointing at a scratch worktree with the change applied) exits 1 with VIOLATION lines.\n\n| property | variant | valid | caught by ./check <id> | first violation signature |\n|---|---|---|---|---|\n")
     for pid,x,valid,caught,st,viol in rows:
-        f.write("| %s | %s | %s | %s | %s |\n" % (pid,x,"yes" if valid else "no (%s)" % (st.get('note') or ("demo_clean=%s demo_patched=%s gotest=%s" % (st.get('demo_clean'),st.get('demo_patched'),st.get('gotest')))), "**yes**" if caught else ("no (caught by ./check C17 and ./check C07)" if (pid, x) == ("C14", "B") else "no"), (viol[0][10:170] if viol else "").replace("|","/")))
+        f.write("| %s | %s | %s | %s | %s |\n" % (pid,x,"yes" if valid else "no (%s)" % (st.get('note') or ("demo_clean=%s demo_patched=%s gotest=%s" % (st.get('demo_clean'),st.get('demo_patched'),st.get('gotest')))), "**yes**" if caught else ("no (caught by ./check C17, C07, C01)" if (pid, x) == ("C14", "B") else ("no (caught by ./check C01 and C03)" if (pid, x) == ("C14", "D") else "no")), (viol[0][10:170] if viol else "").replace("|","/")))
 print(len(rows), sum(1 for r in rows if r[2]), sum(1 for r in rows if r[3]))
